@@ -14,7 +14,7 @@ def shards(prefix, variant, n, *args, **kw):
     return [T('%s-%d' % (prefix, i), variant, *(list(args) + ['shard=%d/%d' % (i, n)]), **kw) for i in range(n)]
 
 ALL_EPS = 'eps=0,1,2,3,4,5,6,7,8,9,10,11,12'     # 8 public entry points + 4 on the type object itself + type_of
-PUB_EPS = 'eps=0,1,2,3,4,5,6,7,8'                 # 8 public entry points + instance(type object)
+PUB_EPS = 'eps=0,1,2,3,4,5,6,7'                   # the 8 public entry points
 NOCOUNT = 'count=0'   # instance re-explores a space owned by another instance (shallower depth, sanitizer build):
                       # its states/nontrivial are reported as *_local and add nothing to the summed totals
 
@@ -92,8 +92,8 @@ CHECK = {
               'n in {0,1,2,3,4,31,255,256}: all permutations of all n-subsets of an 8-class pool x 2 member variants for n<=4, '
               'all rotations x 2 variants above, 290-class lookup universe; cast 71x71x2; ASan+UBSan: matrix, cast, pairs over '
               'a 151-operation alphabet, long histories every 7th rotation, run-time n<=31 full and 255/256 every 16th rotation'),
-    'thorough': ('as quick plus all ordered TRIPLES over the 270-operation alphabet (8 public entry points + instance(type '
-                 'object)) per type from cold (1.4e9 histories); run-time types n in {0..5,8,17,18,19,31,32,64,128,255,256}, '
+    'thorough': ('as quick plus all ordered TRIPLES over the 240-operation alphabet (8 public entry points x 30 classes) per '
+                 'type from cold (9.8e8 histories); run-time types n in {0..5,8,17,18,19,31,32,64,128,255,256}, '
                  '10-class pool, 3 member variants, forward and reversed base lists; ASan+UBSan: matrix, cast, all pairs over '
                  'the full alphabet, all long histories, triples over a 90-operation alphabet, the quick run-time bound'),
   },
